@@ -43,7 +43,9 @@ impl Normalization {
     }
 
     pub(crate) fn input_name(self, inm: &str) -> Cow<'_, str> {
-        self.camel_case(inm)
+        // Also used for the types of variables, which can be the built-in `ID`: keep the
+        // names that `field_type` keeps, so both refer to the same generated item.
+        self.field_type_impl(inm)
     }
 
     pub(crate) fn scalar_name(self, snm: &str) -> Cow<'_, str> {
